@@ -14,6 +14,8 @@ ops:
                                       -> ok accept il=<b> off=<n> ts=<n> [tuple=…] prev=… | err <kind> prev=… | panic …
   cli.wrap il= att=ok:<tag>:<inIL>,err:<kind>,…   -> ok <tag> | err <kind>
   cli.badlocal tr= iplen=             -> err addr
+  cli.ntsdest tr=ip|scion|scion-local parsed=x<16 bytes>|- port= reach=
+                                      -> ok sent=x<ip>:<port>|- res=fail   (destination of the NTS-protected request)
 -/
 
 def parseT64? (s : String) : Option T64 :=
@@ -113,6 +115,30 @@ def parseAuthOpt? (s : String) : Option (Option AuthOpt) :=
     | _, _, _, _ => none
   | _ => none
 
+/-- 16 bytes, big endian -/
+def natBytes (n : Nat) (k : Nat) : List Nat := (List.range k).map fun i => n / 256 ^ (k - 1 - i) % 256
+
+/-- Older form of an address in the line protocol: one number per address, equal numbers iff
+    the addresses are equal up to IPv4-mapping (< 2^32: that IPv4 address; else some IPv6
+    address). Kept readable: mapped injectively to the bytes of such an address. -/
+def legacyBytes (n : Nat) : List Nat := if n < 4294967296 then natBytes n 4 else natBytes n 16
+
+/-- bytes of `remoteAddr.Host.IP` / `localAddr.Host.IP`: `x<hex>`, or the older number -/
+def parseIPBytes? (s : String) : Option (List Nat) :=
+  if s.startsWith "x" then parseHex? (s.drop 1).toString else s.toNat?.map legacyBytes
+
+/-- host address of a received header: `t<type field>x<raw bytes hex>`, or the older number
+    (then: an IP-typed address) -/
+def parseHost? (s : String) : Option HostAddr :=
+  if s.startsWith "t" then
+    match ((s.drop 1).toString).splitOn "x" with
+    | [t, h] =>
+      match t.toNat?, parseHex? h with
+      | some t, some b => if t < 16 ∧ b.length = 4 * (t % 4 + 1) then some ⟨t, b⟩ else none
+      | _, _ => none
+    | _ => none
+  else s.toNat?.map fun n => ⟨if n < 4294967296 then t4Ip else t16Ip, legacyBytes n⟩
+
 /-- s:<decodeOk>:<layers>:<bufLen>:<udpLen>:<srcIA>:<srcHost>:<dstIA>:<dstHost>:<tsOpt>:<authOpt>:<len>:<lvm>:<st>:<org>:<rx>:<tx>:<cRx>:<before> -/
 def parseEvSCION? (s : String) : Option (Event ScionDgram) :=
   match s.splitOn ":" with
@@ -120,7 +146,7 @@ def parseEvSCION? (s : String) : Option (Event ScionDgram) :=
   | ["f", b] => (parseBool? b).map .badFlags
   | ["s", ok, layers, bl, ul, sia, sh, dia, dh, ts, au, len, lvm, st, org, rx, tx, cRx, b, dec, uid, opn] =>
     match parseBool? ok, (if layers = "-" then some [] else parseLayers? layers), bl.toNat?, ul.toNat?,
-          sia.toNat?, sh.toNat?, dia.toNat?, dh.toNat? with
+          sia.toNat?, parseHost? sh, dia.toNat?, parseHost? dh with
     | some ok, some layers, some bl, some ul, some sia, some sh, some dia, some dh =>
       match parseOptInt? ts, parseAuthOpt? au, parsePayload? [len, lvm, st, org, rx, tx, dec, uid, opn], parseInt? cRx, parseBool? b with
       | some ts, some au, some p, some cRx, some b =>
@@ -208,12 +234,13 @@ def step (_ : Unit) (toks : List String) : Unit × String := Id.run do
           | _, _ => return ((), "bad-op")
         | .scion =>
           if rest.length ≠ 15 then return ((), "bad-op")
-          match (kvs rest ["ria", "rhost", "lia", "lhost"]).bind (·.mapM (·.toNat?)),
+          match (kvs rest ["ria", "lia"]).bind (·.mapM (·.toNat?)),
+                (kvs rest ["rhost", "lhost"]).bind (·.mapM parseIPBytes?),
                 (kv? rest "key").bind parseBool?, parseEvs? parseEvSCION? ev with
-          | some [ria, rhost, lia, lhost], some key, some evs =>
+          | some [ria, lia], some [rhost, lhost], some key, some evs =>
             let (out, prev') := exchangeSCION cfg ⟨ria, rhost, lia, lhost, key⟩ prev ref now ctx1 evs
             return ((), fmtOutcome cfg filt out prev')
-          | _, _, _ => return ((), "bad-op")
+          | _, _, _, _ => return ((), "bad-op")
       | _, _, _, _, _, _, _, _, _ => return ((), "bad-op")
     | _ => return ((), "bad-op")
   | ["cli.wrap", il, att] =>
@@ -224,6 +251,28 @@ def step (_ : Unit) (toks : List String) : Unit × String := Id.run do
       | none => return ((), s!"ok {s.ts}")
       | some e => return ((), s!"err {errName e}")
     | _, _ => return ((), "bad-op")
+  | ["cli.ntsdest", tr, parsed, port, reach] =>
+    -- destination of the NTS-protected request; `reach`: a datagram to the named address can be
+    -- observed on loopback (else the model's claim is only that none goes anywhere else)
+    match kv? [tr] "tr", kv? [parsed] "parsed", (kv? [port] "port").bind (·.toNat?), (kv? [reach] "reach").bind parseBool? with
+    | some tr, some parsed, some port, some reach =>
+      if tr ≠ "ip" ∧ tr ≠ "scion" ∧ tr ≠ "scion-local" then return ((), "bad-op")
+      if port ≥ 65536 then return ((), "bad-op")
+      let parsed? : Option (Option (List Nat)) :=
+        if parsed = "-" then some none
+        else if parsed.startsWith "x" then
+          match parseHex? (parsed.drop 1).toString with
+          | some b => if b.length = 16 then some (some b) else none
+          | none => none
+        else none
+      match parsed? with
+      | none => return ((), "bad-op")
+      | some pr =>
+        match ntsDestination ([], 0) pr port with
+        | some (ip, p) =>
+          if reach then return ((), s!"ok sent=x{toHex ip}:{p} res=fail") else return ((), "ok sent=- res=fail")
+        | none => return ((), "ok sent=- res=fail")
+    | _, _, _, _ => return ((), "bad-op")
   | ["cli.badlocal", tr, iplen] =>
     match (kv? [tr] "tr").bind parseTr?, (kv? [iplen] "iplen").bind (·.toNat?) with
     | some _, some n =>
